@@ -154,7 +154,12 @@ func WithBytes(seq Sequence, p []byte) Sequence {
 }
 
 func insert(p []byte, pos int, q []byte) []byte {
-	return append(p[:pos], append(q, p[pos:]...)...)
+	// Build the result in a fresh buffer: appending to p[:pos] or to q would
+	// write into the spare capacity of the arguments (and over p itself).
+	r := make([]byte, 0, len(p)+len(q))
+	r = append(r, p[:pos]...)
+	r = append(r, q...)
+	return append(r, p[pos:]...)
 }
 
 // Insert a sequence at the given index. For any feature whose location covers
@@ -218,6 +223,8 @@ func Delete(seq Sequence, offset, length int) Sequence {
 	seq = WithInfo(seq, info)
 
 	ff := seq.Features()
+	// Do not write into the feature table of the argument.
+	ff = append(make(FeatureSlice, 0, len(ff)), ff...)
 	for i, f := range ff {
 		ff[i].Loc = f.Loc.Expand(offset, -length)
 	}
@@ -297,6 +304,10 @@ func Concat(ss ...Sequence) Sequence {
 	default:
 		head, tail := ss[0], ss[1:]
 		ff, p := head.Features(), head.Bytes()
+		// Work on copies: Insert and append would otherwise write into the
+		// spare capacity of the first argument's table and residues.
+		ff = append(make(FeatureSlice, 0, len(ff)), ff...)
+		p = append(make([]byte, 0, len(p)), p...)
 
 		for _, seq := range tail {
 			for _, f := range seq.Features() {
@@ -349,7 +360,9 @@ func Rotate(seq Sequence, n int) Sequence {
 
 	m := Len(seq) - n
 	p := seq.Bytes()
-	p = append(p[m:], p[:m]...)
+	// Splice into a fresh buffer: appending to p[m:] would write into the
+	// spare capacity behind the argument's residues.
+	p = append(append(make([]byte, 0, len(p)), p[m:]...), p[:m]...)
 
 	seq = WithFeatures(seq, ff)
 	seq = WithBytes(seq, p)
